@@ -7,7 +7,7 @@ mkdir -p harness/bin evidence/replays
 ( cd harness && ( go build -tags verif,verif_internal -o bin/corr ./cmd/corr && go build -tags verif,verif_internal -o bin/extract ./cmd/extract ) \
    || ( go build -tags verif -o bin/corr ./cmd/corr && go build -tags verif -o bin/extract ./cmd/extract ) )
 ./harness/bin/extract lean/OtpVerif/Gen || true
-( cd harness && go build -o bin/ssafacts ./cmd/ssafacts && ./bin/ssafacts ../lean/OtpVerif/Gen/Sites.lean || true )
+( cd harness && go build -o bin/ssafacts ./cmd/ssafacts && mkdir -p /verif/lean/.lake && VERIF_VC_OUT=/verif/lean/.lake/PanicVC.candidates ./bin/ssafacts /verif/lean/OtpVerif/Gen/Sites.lean && python3 /verif/tools/vcfilter.py /verif/lean/.lake/PanicVC.candidates /verif/lean/OtpVerif/Gen/PanicVC.lean /verif/lean || true )
 ( cd harness && go build -o bin/restcorr ./cmd/restcorr && go build -o bin/wasmcorr ./cmd/wasmcorr || true )
 ( cd harness && go build -race -tags verif -o bin/stress ./cmd/stress || go build -tags verif -o bin/stress ./cmd/stress || true )
 cd lean
